@@ -729,6 +729,13 @@ class AsyncFIXConnection:
         else:
             self.log.info(f"SequenceReset received from peer: {seqreset_msg}")
 
+        # NewSeqNo must be usable before anything is changed, otherwise the counter
+        #   would be left at the MsgSeqNum of a reset which was never applied
+        new_seq_no = int(seqreset_msg[FTag.NewSeqNo])
+        if new_seq_no < 1:
+            self.log.warning(f"Ignoring SEQUENCERESET, bad NewSeqNo: {seqreset_msg}")
+            return False
+
         # Cleanup journal of past messages if session was reset to avoid SQL dup errors
         #   Sometimes we might have outdated seq nums in journal
         self._journaler.set_seq_num(
@@ -736,9 +743,7 @@ class AsyncFIXConnection:
         )
 
         # Set journal at new NewSeqNo
-        self._journaler.set_seq_num(
-            self._session, next_num_in=int(seqreset_msg[FTag.NewSeqNo])
-        )
+        self._journaler.set_seq_num(self._session, next_num_in=new_seq_no)
         return True
 
     async def _finalize_message(self, msg: FIXMessage, raw_msg: bytes):
